@@ -11,6 +11,7 @@ CLAIMS = {
  "C02": ("PUS TC pack = layout oracle with CRC as spec function, for symbolic application-data length; unpack post-conditions for arbitrary octet strings (min-length rejection, CRC gate, field extraction, prefix-only); round trip with arbitrary suffix; space-packet view.", "DESIGN.md 5 C02"),
  "C05": ("CFDP fixed header: pack = table 5-1 oracle for all flag/width/ID values (16 width cases x symbolic values), unpack decision list of errors and field extraction for arbitrary octets, round trip with suffix, refusals, caller config untouched.", "DESIGN.md 5 C05"),
  "C20": ("Unsigned byte field contracts (constructor refusal iff over all integers, view coherence, rebuild from octets for all five widths, setters, eq/hash, generator, conversion helpers) discharged for all values by case split over the five widths.", "DESIGN.md 5 C20"),
+ "C16": ("History property by induction: add_tc / add_tm / remove_entry / remove_completed_entries verified against the state-machine spec sm_step on a tracker in an ARBITRARY state (open dict: any number of telecommands, arbitrary status records, step lists of any length) with a whole-view post-condition (own entry = sm_step, any other entry untouched, universally quantified other key); monotonicity lemmas over sm_step.", "DESIGN.md 5 C16"),
 }
 NOT_APPLICABLE = {}
 props = [json.loads(l)["id"] for l in open(os.path.join(V, "properties.jsonl"))]
